@@ -75,6 +75,7 @@ class I2CHarness(Harness):
         names = ("sda_change", "start_stop", "write_bits", "write_release", "write_ack", "read_release", "read_data",
                  "read_ack", "nine_clocks", "stretch", "busy_rises")
         self.v = {n: self.viol(n) for n in names}
+        self.k_stale = self.kf("start_on_stale_sda")
         cov = ("start_done", "repeated_start_done", "stop_done", "write_acked", "write_nacked", "read_done",
                "stretched_bit", "write_bit3", "read_bit3", "start_then_write")
         self.c = {n: self.cover(n) for n in cov}
@@ -162,6 +163,15 @@ class I2CHarness(Harness):
                 sync += nfall.eq(nfall + 1)
             with m.If(rise_ev & (nrise != 3)):
                 sync += nrise.eq(nrise + 1)
+
+        # scenario predicate of the recorded finding: a START accepted while the initiator itself pulls SDA low and
+        # began to do so in one of the last two cycles (the synchronised sda_i the FSM looks at is still high)
+        p2_sda_oe = Signal(name="g_p2_sda_oe")
+        sync += p2_sda_oe.eq(p_sda_oe)
+        stale_start = Signal(name="g_stale_start")
+        with m.If(accept):
+            sync += stale_start.eq(self.start & sda_oe & (~p_sda_oe | ~p2_sda_oe))
+        m.d.comb += self.k_stale.eq(stale_start & (op == START))
 
         exp_wbit = Signal(name="g_exp_wbit")
         for k in range(8):
